@@ -250,3 +250,47 @@ void h_set(void)
                  "C41.test_and_set.post.keeps_on_mismatch");
     V_CANARY("set");
 }
+
+/* ---- parsec_info_get on an EMPTY slot of an info that has a constructor, under interference: while my
+ * constructor runs (no lock is held) another thread may fill the slot.  From the property ("each object's info
+ * slot returns the last value set or the constructed default"): get returns what the slot holds afterwards; the
+ * candidate it built is installed (and then returned) or destroyed exactly once (and then NOT returned). ---- */
+static int g_cons_calls, g_des_calls; static void *g_cons_obj; static void *g_destroyed;
+static void *stub_constructor(void *obj, void *cb_data)
+{
+    (void)obj; (void)cb_data;
+    g_cons_calls++;
+    g_cons_obj = (void *)(uintptr_t)vin.newval;
+    /* environment step inside the unlocked window: another thread's set / racing get fills the slot */
+    if (vin.ghost & 1) oa.info_objects[vin.set_iid] = (void *)(uintptr_t)vin.oldval;
+    return g_cons_obj;
+}
+static void stub_destructor(void *elt, void *cb_data) { (void)cb_data; g_des_calls++; g_destroyed = elt; }
+void h_get_default(void)
+{
+    vin_load();
+    PARSEC_OBJ_CONSTRUCT(&nfo, parsec_info_t);
+    PARSEC_OBJ_CONSTRUCT(&oa, parsec_info_object_array_t);
+    /* one registered info (id 0) with constructor and destructor, array of one empty slot */
+    static parsec_info_entry_t ent; static char nm[2] = "a";
+    PARSEC_OBJ_CONSTRUCT(&ent, parsec_list_item_t);
+    ent.info = &nfo; ent.name = nm; ent.iid = 0; ent.constructor = stub_constructor; ent.destructor = stub_destructor;
+    parsec_list_nolock_push_back(&nfo.info_list, &ent.list_item);
+    nfo.max_id = 0; vin.set_iid = 0;
+    oa.infos = &nfo; oa.known_infos = 1; oa.info_objects = malloc(sizeof(void *)); oa.info_objects[0] = NULL;
+    V_ASSUME(vin.newval != 0 && vin.oldval != 0 && vin.oldval != vin.newval);
+    g_cons_calls = g_des_calls = 0; g_destroyed = NULL;
+
+    void *r = parsec_info_get(&oa, 0);
+
+    V_ASSERT(g_cons_calls == 1, "C41.get.post.default_constructed_once_for_an_empty_slot");
+    V_ASSERT(r == oa.info_objects[0] && r != NULL, "C41.get.post.returns_what_the_slot_holds");
+    if (vin.ghost & 1) {   /* somebody else filled the slot first: their value stays, mine is destroyed once and not returned */
+        V_ASSERT(oa.info_objects[0] == (void *)(uintptr_t)vin.oldval, "C41.get.post.value_set_by_the_other_thread_is_kept");
+        V_ASSERT(g_des_calls == 1 && g_destroyed == g_cons_obj, "C41.get.post.unused_default_destroyed_exactly_once");
+        V_ASSERT(r != g_destroyed, "C41.get.post.never_returns_a_destroyed_object");
+    } else {
+        V_ASSERT(oa.info_objects[0] == g_cons_obj && g_des_calls == 0, "C41.get.post.constructed_default_installed_and_kept");
+    }
+    V_CANARY("get_default");
+}
